@@ -178,14 +178,11 @@ Lemma call_credit m cl :
   credit (mon_call_upd m cl) 0 = credit m 0 + hout [ECall cl] + dout [ECall cl].
 Proof.
   destruct cl as [i|i [| |]|[|s] [|v|e|]]; cbn; try lia.
-  - destruct (sk m 0); cbn; updt.
-  - updt.
-  - destruct (sk m 0), (err_due m 0) as [e'|]; try destruct (Nat.eqb e e'); cbn; lia.
-  - destruct (sk m 0); cbn; lia.
-  - destruct (sk m (S s)); cbn; updt.
-  - updt.
-  - destruct (sk m (S s)), (err_due m (S s)) as [e'|]; try destruct (Nat.eqb e e'); cbn; lia.
-  - destruct (sk m (S s)); cbn; lia.
+  all: repeat match goal with
+              | |- context [match sk ?m0 ?s with _ => _ end] => destruct (sk m0 s)
+              | |- context [match err_due ?m0 ?s with _ => _ end] => destruct (err_due m0 s)
+              | |- context [if Nat.eqb ?a ?b then _ else _] => destruct (Nat.eqb a b)
+              end; updt.
 Qed.
 
 Section Generic.
@@ -299,12 +296,11 @@ Section Generic.
     credit (mon_move p (ms c) m) 0 + pin [move_event m] = credit (ms c) 0.
   Proof.
     intros Hone He. destruct m as [i|]; [|cbn; lia].
-    destruct i as [s [|aux]|s [|e|]|j [|v|e|]|t]; cbn; try lia.
-    destruct s as [|s]; cbn; [|updt].
-    rewrite upd_same.
-    unfold enabled in He. rewrite Hone in He. cbn in He.
-    apply andb_prop in He. destruct He as [_ He]. apply andb_prop in He. destruct He as [_ He].
-    apply andb_prop in He. destruct He as [_ He]. apply Nat.ltb_lt in He. lia.
+    destruct i as [[|s] [|aux]|[|s] [|e|]|j [|v|e|]|t]; cbn; try lia.
+    - unfold enabled in He. rewrite Hone in He. cbn in He.
+      apply andb_prop in He. destruct He as [_ He]. apply andb_prop in He. destruct He as [_ He].
+      apply andb_prop in He. destruct He as [_ He].
+      rewrite ?upd_same. destruct (credit (ms c) 0); [discriminate | cbn; lia].
   Qed.
 
   (** ** (G3) returns and pending calls *)
@@ -321,8 +317,8 @@ Section Generic.
       by (destruct m; reflexivity).
     rewrite E1, E2, E3.
     destruct a as [| |cl k]; cbn [act_event length];
-      change (n_call [EDone]) with 0; change (n_call [EPanic]) with 0;
-      change (n_call [ECall cl]) with 1; lia.
+      [change (n_call [EDone]) with 0 | change (n_call [EPanic]) with 0
+      | change (n_call [ECall cl]) with 1]; lia.
   Qed.
 
   (** ** (G4) static facts about calls *)
@@ -460,7 +456,7 @@ Section Generic.
     (forall s, refused (ms c) s = None) /\ sk_inv (sk (ms c) 0) (dn_out (trace c)).
   Proof.
     intros Hg. induction 1 as [|c m Hr [IHr IH] He]; [split; [reflexivity | split; reflexivity]|].
-    destruct (safe_step Hr He) as (os & a & m1 & Htr & H1 & H2).
+    destruct (@safe_step c m Hr He) as (os & a & m1 & Htr & H1 & H2).
     pose proof (move_refused _ _ Hg He) as Hrf.
     pose proof (move_sk _ _ He) as Hmv.
     destruct H1 as (S1 & _ & _ & R1).
@@ -493,7 +489,7 @@ Section Generic.
     resub p = false -> reach p g c -> us_inv (us (ms c) 0) (up_out (trace c)).
   Proof.
     intros Hres. induction 1 as [|c m Hr IH He]; [split; reflexivity|].
-    destruct (safe_step Hr He) as (os & a & m1 & Htr & H1 & H2).
+    destruct (@safe_step c m Hr He) as (os & a & m1 & Htr & H1 & H2).
     pose proof (move_us _ _ He) as Hmv.
     destruct H1 as (_ & U1 & _ & _).
     assert (Hk1 : us_inv (us m1 0) (up_out (trace c))).
@@ -572,7 +568,7 @@ Section Exported.
     safe -> std -> resub p = false -> reach p g c -> sk (ms c) 0 <> SNone -> hout (trace c) = 1.
   Proof.
     intros Hsafe Hg Hres Hr Hn. pose proof (sk_counts Hsafe Hg Hres Hr) as H.
-    destruct (sk (ms c) 0); try tauto. congruence.
+    destruct (sk (ms c) 0); try tauto; congruence.
   Qed.
 
   (** *** (G2) *)
